@@ -34,12 +34,11 @@ structure Enc where
 
 def noteish (t : Nat) : Bool := decide (mds_TIE ≤ t) && decide (t < mds_SLR)
 
-/-- `(last_type >= TIE) && (last_type < SLR) && (track_data.at(size-1) > 0x80)`; the `at` is
-only evaluated when the first two conjuncts hold -/
+/-- `(last_type >= TIE) && (last_type < SLR) && track_data.size() && (track_data.back() > 0x80)` -/
 def needLen (e : Enc) : Except CErr Bool :=
   if noteish e.lastType then
     match e.out.getLast? with
-    | none => .error .atEmpty
+    | none => .ok false          -- `track_data.size() &&` guards the read
     | some b => .ok (decide (b > 0x80))
   else .ok false
 
@@ -91,7 +90,15 @@ def wordArgOps : List Nat := [mds_FMREG, mds_FMCREG, mds_FMTL, mds_FMTLM]
 /-- the `switch(type)` for everything that is not a timed rest/note/tie; `nSubs`, `nMacros` are
 `subroutine_list.size()`, `macro_track_list.size()` (for `MTAB` and `get_data_id`) -/
 def encOther (nSubs nMacros : Nat) (e : Enc) (ty arg : Nat) : Except CErr Enc :=
-  if ty = mds_SEGNO then .ok { e with lastRest := U16, lastNote := U16, segnoPos := e.out.length % 65536 }
+  if ty = mds_SEGNO then
+    -- a preceding length-less note/tie gets its length first (`track_data.size() &&` guards the read)
+    let e1 : Enc :=
+      if noteish e.lastType then
+        match e.out.getLast? with
+        | some b => if b > 0x80 then { e with out := e.out ++ [e.lastNote % 256] } else e
+        | none => e
+      else e
+    .ok { e1 with lastRest := U16, lastNote := U16, segnoPos := e1.out.length % 65536 }
   else if ty = mds_SLR ∨ ty = mds_FINISH then .ok { e with out := e.out ++ [ty] }
   else if byteArgOps.contains ty then .ok { e with out := e.out ++ [ty, arg % 256] }
   else if ty = mds_MTAB then
@@ -131,7 +138,9 @@ def encEv (nSubs nMacros : Nat) (e : Enc) (ev : MEv) : Except CErr Enc :=
     else encOther nSubs nMacros e ev.type ev.arg
   match r with
   | .error x => .error x
-  | .ok e' => .ok { e' with lastType := ev.type }
+  | .ok e' =>
+    -- a rest/tie/note of length 0 emits nothing and is not remembered as the last event
+    if ev.type < mds_REST ∨ ev.type ≥ mds_SLR ∨ ev.arg ≠ 0 then .ok { e' with lastType := ev.type } else .ok e'
 
 def encAll (nSubs nMacros : Nat) : Enc → List MEv → Except CErr Enc
   | e, [] => .ok e
